@@ -1,7 +1,7 @@
 (* Statements about the GENERATED tables (Gen/TablesGen.v, re-emitted from /repo on every run): finite checks by
    vm_compute lifted over all table entries, and definitional equalities of the derived sensors. *)
 From Coq Require Import ZArith List Bool String Lia.
-From GW Require Import Prelude PyStr PyFloat Sensors TableChecks TablesGen SensorProofs.
+From GW Require Import Prelude PyStr PyFloat Sensors TableChecks TablesGen SensorProofs ETCaps ETCapsProofs.
 Import ListNotations.
 Open Scope Z_scope.
 
@@ -149,6 +149,30 @@ Lemma windows :
   forallb (sensor_in_window DT_READ_RUNNING_DATA) DT_all_sensors = true /\
   forallb (sensor_in_window DT_READ_METER_DATA) DT_all_sensors_meter = true.
 Proof. vm_compute. repeat split; reflexivity. Qed.
+
+(* capability level (Model/ETCaps.v) -> generated tables: the window that the flags select and the meter sensors kept at the filter level *)
+Definition meter_window (c : caps) : Z * Z :=
+  if has_ext2 c then ET_READ_METER_DATA_EXTENDED2 else if has_ext c then ET_READ_METER_DATA_EXTENDED else ET_READ_METER_DATA.
+Definition meter_list (level : nat) : list sensor :=
+  match level with O => ET_all_sensors_meter | S O => ET_meter_below ET_not_extended_meter2_limit | _ => ET_meter_below ET_not_extended_meter_limit end.
+
+Lemma consistent_window_covers_all :
+  forallb (fun c => negb (caps_consistent c) || forallb (sensor_in_window (meter_window c)) (meter_list (meter_level c))) all_caps = true.
+Proof. vm_compute. reflexivity. Qed.
+
+Lemma consistent_window_covers c : (meter_level c <= 2)%nat -> caps_consistent c = true ->
+  forallb (sensor_in_window (meter_window c)) (meter_list (meter_level c)) = true.
+Proof.
+  intros Hl Hc. pose proof consistent_window_covers_all as K. rewrite forallb_forall in K.
+  specialize (K c (all_caps_complete c Hl)). rewrite Hc in K. exact K.
+Qed.
+
+(* after ANY history of read_runtime_data calls -- any refused blocks, any lost requests, exception paths included -- the
+   meter window requested next covers every meter sensor that will be decoded from it *)
+Theorem meter_window_always_covers two big h :
+  let c := calls (after_device_info two big) h in
+  forallb (sensor_in_window (meter_window c)) (meter_list (meter_level c)) = true.
+Proof. destruct (consistent_always two big h) as [Hc Hl]. cbv zeta. apply consistent_window_covers; assumption. Qed.
 
 Lemma mppt_refuted : map (fun id => option_map (sensor_in_window ET_READ_MPPT_DATA) (find_sensor id ET_all_sensors_mppt)) mppt_known = [Some false; Some false].
 Proof. vm_compute. reflexivity. Qed.
